@@ -48,6 +48,7 @@ def budget(tier):
 def _cases(draw, tier):
     limit = draw(st.sampled_from([None, None, None, 5, 60, 0, 0.0, 2.5]))
     warmup = pct(draw) < 35
+    bys = draw(st.sampled_from([None, None, None, 'same', 'same_other_opts', 'sibling']))
     threads = draw(st.sampled_from([None, None, 1, 2, 4]))
     salt = draw(strategies.salts)
     shape = draw(st.sampled_from(['gen', 'gre', 'gen_then', 'mix', 'mix']))
@@ -68,9 +69,18 @@ def _cases(draw, tier):
     for _ in range(uni(draw, 0, 6)):
         doubles.append([[uni(draw, 0, 7), draw(st.sampled_from(faults.KINDS)), draw(st.booleans()),
                          draw(st.sampled_from(faults.POLICIES))] for _ in range(2)])
+    bystander = None
+    if bys == 'same':
+        bystander = {'opts': opts, 'inst': None}
+    elif bys == 'same_other_opts':
+        bystander = {'opts': draw(strategies.option_sets(inst, max_crit=2, twopl=opts['twopl'],
+                                                         pc=opts['pc'])), 'inst': None}
+    elif bys == 'sibling':
+        sib = draw(strategies.siblings(inst))
+        bystander = {'opts': draw(strategies.option_sets(sib, max_crit=2)), 'inst': sib}
     return {'inst': inst, 'opts': opts, 'time_limit': limit, 'steps': steps, 'salt': salt,
             'choices': draw(strategies.choice_lists), 'doubles': doubles, 'mode': mode,
-            'warmup': warmup, 'threads': threads}
+            'warmup': warmup, 'threads': threads, 'bystander': bystander, 'bys': bys}
 
 
 def strategy(tier):
@@ -92,6 +102,8 @@ def check_run(fr, case, plan_desc, base_texts=None):
     """Oracle for one (possibly faulted) run."""
     T = case['time_limit']
     recs = fr.backend.records
+    if fr.raised:
+        return next(r for r in recs if r.status == 'Raised')     # the failure reached the caller
     b = None
     for r in recs:
         if r.status != 'Optimal':
@@ -117,6 +129,8 @@ def check_run(fr, case, plan_desc, base_texts=None):
                             'show matching %r, statistics %r' % (
                                 b.index + 1, len(recs), b.status, plan_desc, which,
                                 parsed['matching'], shown_stats))
+        if b.status == 'Raised':
+            continue        # swallowed back-end failure: which status is shown is not specified
         want_timeout = T is not None and (
             (fr.total_s is not None and fr.total_s > T) or b.status == 'Not Solved')
         if want_timeout:
@@ -149,7 +163,7 @@ def run_case(case):
     kw = dict(time_limit=T, mode=case.get('mode', 'eb'), choices=case['choices'],
               salt=case['salt'], steps_ms=case['steps'])
     kw['threads'] = case.get('threads')
-    wkw = dict(kw, warmup=bool(case.get('warmup')))
+    wkw = dict(kw, warmup=bool(case.get('warmup')), bystander=case.get('bystander'))
     try:
         base = faults.FaultRun(inst, opts, [], **kw).run()
     except Violation as v:
@@ -162,7 +176,7 @@ def run_case(case):
     labels = ['K=%d' % min(K, 8), 'limit' if T is not None else 'no_limit',
               'warmup_solve_on_same_object' if case.get('warmup') else 'fresh_object',
               'limit=%r' % (T,), 'threads=%r' % (case.get('threads'),),
-              'mode=' + case.get('mode', 'eb')]
+              'mode=' + case.get('mode', 'eb'), 'bystander=%s' % case.get('bys')]
     nruns = 1
     masking = False
     kinds = [k for k in faults.KINDS if k != 'Incumbent' or T is not None]
@@ -174,16 +188,21 @@ def run_case(case):
                     else ['zero']
                 for pol in pols:
                     plans.append([[at, kind, persistent, pol]])
+        for persistent in (False, True):
+            plans.append([[at, faults.RAISES, persistent, 'prev']])
     for d in case['doubles']:
         d = [x for x in d if x[1] != 'Incumbent' or T is not None]
         if len(d) == 2 and K >= 1:
             plans.append([[d[0][0] % K, d[0][1], d[0][2], d[0][3]],
                           [d[1][0] % K, d[1][1], d[1][2], d[1][3]]])
-    for spec in plans:
+    # the bystander object costs a solve of its own: at most ~40 plans per case carry it
+    stride = max(1, -(-len(plans) // 40))
+    for nplan, spec in enumerate(plans):
+        pkw = wkw if nplan % stride == 0 else dict(wkw, bystander=None)
         desc = ' + '.join('%s %s fault at solve %d, values=%s' % (
             'persistent' if p else 'transient', k, a + 1, pol) for a, k, p, pol in spec)
         try:
-            fr = faults.FaultRun(inst, opts, _plan(spec), **wkw).run()
+            fr = faults.FaultRun(inst, opts, _plan(spec), **pkw).run()
         except Violation as v:
             if v.facet.startswith('exception:'):
                 raise Violation('exception_after_fault', '%s: %s' % (desc, v.detail), exc=v.exc)
